@@ -189,6 +189,14 @@ class Ctx:
             ent = self.findings[fid]
             print(f"KNOWN-FINDING: property={self.prop} {fid}: {ent['what']} (reproduced {n}x)", flush=True)
         if self.violations:
+            groups = {}
+            for v in self.violations:
+                key = json.dumps({k: v.get(k) for k in ("stage", "kind", "app_kind", "tool", "op", "c", "bad", "what")
+                                  if k in v}, default=_default)
+                groups[key] = groups.get(key, 0) + 1
+            print(f"{len(self.violations)} violations in {len(groups)} groups:", flush=True)
+            for key, n in sorted(groups.items(), key=lambda kv: -kv[1])[:60]:
+                print(f"  {n:6d} x {key}", flush=True)
             for v, p in zip(self.violations, replay_paths):
                 brief = {k: v[k] for k in list(v)[:6]}
                 print(f"VIOLATION property={self.prop} replay={p}", flush=True)
